@@ -52,6 +52,7 @@ pub fn c07_configs(thorough: bool) -> Vec<EpCfg> {
                     c.connects = vec![ConnProf::basic(true), ConnProf::basic(false), ConnProf { rm: Some(1), tam: Some(1), ..ConnProf::basic(false) }];
                     c.connacks = vec![AckProf::basic(false), AckProf::basic(true), AckProf { rm: Some(1), tam: Some(1), ..AckProf::basic(true) }];
                 }
+                c.alph.early_peer_traffic = true;
                 c.groups = vec!["c07"];
                 v.push(c.clone());
                 // both directions at once: outbound QoS 1 / 2 exchanges share the numeric id space with the
